@@ -1,4 +1,5 @@
 //! Simulated worlds (engines).
+pub mod apitrace;
 pub mod exchange;
 pub mod frost;
 pub mod hash;
@@ -47,6 +48,7 @@ pub fn registry() -> Vec<Engine> {
         Engine { name: "frost", run: run_frost, hang_allowance_s: 300 },
         Engine { name: "lms", run: run_lms, hang_allowance_s: 300 },
         Engine { name: "exchange", run: exchange::run, hang_allowance_s: 300 },
+        Engine { name: "apitrace", run: apitrace::run, hang_allowance_s: 300 },
     ]
 }
 
